@@ -40,6 +40,12 @@ Definition xgrid (dx : R) (n i : nat) : R := - (INR n * dx / 2) + INR i * (INR n
 Definition blgrid (dx : R) (n i : nat) : R :=
   (- (1 / (2 * dx)) + / 2 / (2 * (dx * INR n))) + INR i * ((1 / dx - 2 * (/ 2 / (2 * (dx * INR n)))) / INR (n - 1)).
 
+(* ---- band limit of the band-limited angular spectrum (Matsushima & Shimobaba 2009, eq. 13): on an axis of extent L the
+   transfer function exp(i 2 pi z sqrt(1/lam^2 - f^2)) is sampled at the pitch 1/L; its local frequency |z| f / sqrt(1/lam^2 - f^2)
+   stays below L/2 exactly for |f| <= bl_limit.  bl_pass: the 0/1 mask of a frequency sample, each axis with its own extent *)
+Definition bl_limit (lam z L : R) : R := 1 / sqrt ((2 * z / L) ^ 2 + 1) / lam.
+Definition bl_pass (lam z Lx Ly fx fy : R) : bool := andb (Rltb (Rabs fx) (bl_limit lam z Lx)) (Rltb (Rabs fy) (bl_limit lam z Ly)).
+
 (* ---- Gaussian beam, complex width s *)
 Definition cz (k z : R) : R := 2 * z / k.                      (* = lam z / PI *)
 Definition gq (k w0 z : R) : C := (w0 ^ 2, cz k z).
